@@ -31,6 +31,13 @@ func init() {
 			Old: "\t\t\t\tif bestQuality.Cmp(pocTemplate.GetTarget(pocTemplate.Timestamp)) > 0 {", New: "\t\t\t\ttarget := pocTemplate.GetTarget(pocTemplate.Timestamp)\n\t\t\t\tif bestQuality.Cmp(target) > 0 {"},
 		{Name: "timestamp wait written as a negated loop condition", Kill: false, File: fMiner,
 			Old: "\tfor {\n\t\tif time.Now().After(block.MsgBlock().Header.Timestamp) {\n\t\t\tbreak\n\t\t}\n\t\ttime.Sleep(time.Second * pocSlot / 4)\n\t}\n", New: "\tfor !time.Now().After(block.MsgBlock().Header.Timestamp) {\n\t\ttime.Sleep(time.Second * pocSlot / 4)\n\t}\n"},
+		{Name: "target hoisted out of the slot loop (seed C08-r2a)", Kill: true, Rule: "C08-TARGET", File: "poc/engine/pocminer/miner/strategy.go",
+			Old: "\t\t\tfor i := workSlot; i <= nowSlot+allowAhead; i++ {\n", New: "\t\t\ttarget := pocTemplate.GetTarget(pocTemplate.Timestamp)\n\t\t\tfor i := workSlot; i <= nowSlot+allowAhead; i++ {\n",
+			File2: "poc/engine/pocminer/miner/strategy.go", Old2: "\t\t\t\tif bestQuality.Cmp(pocTemplate.GetTarget(pocTemplate.Timestamp)) > 0 {\n", New2: "\t\t\t\tif bestQuality.Cmp(target) > 0 {\n"},
+		{Name: "target computed into a local inside the slot loop", Kill: false, File: "poc/engine/pocminer/miner/strategy.go",
+			Old: "\t\t\t\tif bestQuality.Cmp(pocTemplate.GetTarget(pocTemplate.Timestamp)) > 0 {\n", New: "\t\t\t\ttarget := pocTemplate.GetTarget(pocTemplate.Timestamp)\n\t\t\t\tif bestQuality.Cmp(target) > 0 {\n"},
+		{Name: "mined heights below the new one are forgotten (seed C08-r2b)", Kill: true, Rule: "C08-SUBMIT", File: "poc/engine/pocminer/miner/miner.go",
+			Old: "\tm.minedHeight[block.Height()] = struct{}{}\n", New: "\tfor height := range m.minedHeight {\n\t\tif height < block.Height() {\n\t\t\tdelete(m.minedHeight, height)\n\t\t}\n\t}\n\tm.minedHeight[block.Height()] = struct{}{}\n"},
 	}
 }
 
